@@ -4127,6 +4127,7 @@ class TLSConnection(TLSRecordLayer):
 
                 #Set the session
                 self.session = session
+                self.extendedMasterSecret = session.extendedMasterSecret
                 self._clientRandom = clientHello.random
                 self._serverRandom = serverHello.random
                 self.session.appProto = selectedALPN
